@@ -305,12 +305,19 @@ def r5_helpers(ctx):
             edge = find(f'if {po}[0].el_list[0] != {sr[0]} or {po}[-1].el_list[-1] != {dr[0]}:\n    return None', f.node)
             ok = ok and len(edge) == 1
             first = [b for n in walk_no_nested(f.node) for b in [mstmt(f'V_o0 = {po}[0]', n)] if b]
-            ok = ok and len(first) == 1
-            if ok:
+            pairs = [b for n in walk_no_nested(f.node) if isinstance(n, ast.For) for b in [mstmt(
+                f'for V_a, V_o in zip({po}, {po}[1:]):\n    if not is_adjacent(V_a, V_o):\n        return None\n    V_p.extend(V_o.el_list)', n)] if b]
+            ok = ok and (len(first) == 1 or len(pairs) == 1)
+            if ok and len(pairs) == 1 and not first:
+                # the adjacency walk written over consecutive pairs
+                pth = [b for n in walk_no_nested(f.node) for b in [mstmt(f'V_p = [{SRC}] + {po}[0].el_list', n)] if b]
+                lp = pairs
+            elif ok:
                 o0 = first[0]['V_o0']
                 pth = [b for n in walk_no_nested(f.node) for b in [mstmt(f'V_p = [{SRC}] + {o0}.el_list', n)] if b]
                 lp = [b for n in walk_no_nested(f.node) if isinstance(n, ast.For) for b in [mstmt(
                     f'for V_o in {po}[1:]:\n    if not is_adjacent({o0}, V_o):\n        return None\n    {o0} = V_o\n    V_p.extend(V_o.el_list)', n)] if b]
+            if ok:
                 ok = len(pth) == 1 and len(lp) == 1 and lp[0]['V_p'] == pth[0]['V_p'] and \
                     any(mstmt(f"{pth[0]['V_p']}.append({DST})", n) is not None for n in walk_no_nested(f.node))
                 rets = [n for n in walk_no_nested(f.node) if isinstance(n, ast.Return) and
